@@ -44,123 +44,96 @@ def run(ctx, rep):
 
 
 def dimension_analysis(body):
-    """classify usize locals of the scanner: a local assigned `x + c` / `x + f(..)` inside the loop over chars:
-       increments by a constant -> char-typed counter; by char::len_utf8() -> byte-typed.  Then list the uses
-       as str indices (Index::index with a Range built from the locals) and as `len - x`."""
-    # 1. increments: find statements `_t = AddWithOverflow(copy X, <rhs>)` then `X = move (_t.0)`
-    incr = {}
-    defs = {}
-    for b in body["blocks"]:
-        for s in b["stmts"]:
-            if s["k"] == "assign" and not s["lhs"]["p"]:
-                defs.setdefault(s["lhs"]["l"], []).append(s)
+    """flow-insensitive dimension inference for the usize values of the scanner.  Tags: 'byte' (str::len,
+    char::len_utf8, a counter advanced by len_utf8), 'char' (a counter advanced by a constant once per
+    iterated char), 'const'.  Wrappers (Option, tuples) are transparent: a local's tag set is the union
+    over everything assigned into it or into one of its fields.  A use as str index / `len - x` whose
+    operand can be 'char' is a dimension error."""
+    from mirlib import callee_info
+    import dataflow
+    tags = {}
     calls_dest = {}
     for b in body["blocks"]:
         t = b["term"]
-        if t["k"] == "call" and not t["dest"]["p"]:
+        if t["k"] == "call":
             ci = callee_info(t)
-            calls_dest[t["dest"]["l"]] = (ci.get("resolved") or ci["def"]) if ci else "?"
-
-    def dim_of_operand(o, depth=0):
-        if o["k"] == "const":
-            return "const"
-        l = o["place"]["l"]
-        if o["place"]["p"]:
-            # tuple field of a checked op result
-            ds = defs.get(l, [])
-            if len(ds) == 1 and ds[0]["rv"]["k"] == "binop":
-                return dim_of_binop(ds[0]["rv"], depth + 1)
-            return "unknown"
-        return dim_of_local(l, depth + 1)
-
-    def dim_of_binop(rv, depth):
-        a, b2 = dim_of_operand(rv["a"], depth), dim_of_operand(rv["b"], depth)
-        ds = set([a, b2]) - {"const"}
-        if not ds:
-            return "const"
-        if "char" in ds:
-            return "char"
-        if ds == {"byte"}:
-            return "byte"
-        return "unknown"
-
-    memo = {}
-
-    def dim_of_local(l, depth=0):
-        if l in memo:
-            return memo[l]
-        if depth > 12:
-            return "unknown"
-        memo[l] = "unknown"
-        if l in calls_dest:
-            nm = calls_dest[l]
-            if nm.endswith("str::<impl str>::len") or nm.endswith("::len_utf8") or nm.endswith("::len"):
-                memo[l] = "byte"
-                return "byte"
-            memo[l] = "unknown"
-            return "unknown"
-        ds = defs.get(l, [])
-        kinds = set()
-        for s in ds:
-            rv = s["rv"]
-            if rv["k"] == "use":
-                kinds.add(dim_of_operand(rv["op"], depth))
-            elif rv["k"] == "binop":
-                kinds.add(dim_of_binop(rv, depth))
-            elif rv["k"] == "aggregate" and rv.get("agg") == "adt" and rv.get("variant_name") == "Some":
-                kinds.add(dim_of_operand(rv["ops"][0], depth))
-            else:
-                kinds.add("unknown")
-        kinds.discard("const") if len(kinds) > 1 else None
-        if counters.get(l):
-            kinds = {counters[l]}
-        memo[l] = list(kinds)[0] if len(kinds) == 1 else ("char" if "char" in kinds else "unknown")
-        return memo[l]
-
-    # counters: locals with a self-increment
+            nm = (ci.get("resolved") or ci["def"]) if ci else "?"
+            calls_dest[t["dest"]["l"]] = nm
+            if nm.endswith("str::<impl str>::len") or nm.endswith("::len_utf8"):
+                tags.setdefault(t["dest"]["l"], set()).add("byte")
+    assigns = []
+    for b in body["blocks"]:
+        for s in b["stmts"]:
+            if s["k"] == "assign":
+                assigns.append(s)
+    # counters: `tmp = Add*(copy X, rhs)` ; `X = move tmp.0`
+    defs = {}
+    for s in assigns:
+        if not s["lhs"]["p"]:
+            defs.setdefault(s["lhs"]["l"], []).append(s)
     counters = {}
     for l, ds in defs.items():
         for s in ds:
             rv = s["rv"]
             if rv["k"] == "use" and rv["op"]["k"] in ("move", "copy") and rv["op"]["place"]["p"]:
-                src = rv["op"]["place"]["l"]
-                sd = defs.get(src, [])
+                sd = defs.get(rv["op"]["place"]["l"], [])
                 if len(sd) == 1 and sd[0]["rv"]["k"] == "binop" and sd[0]["rv"]["op"].startswith("Add"):
                     a, b2 = sd[0]["rv"]["a"], sd[0]["rv"]["b"]
                     if a["k"] in ("copy", "move") and a["place"]["l"] == l and not a["place"]["p"]:
                         if b2["k"] == "const":
-                            counters[l] = "char" if counters.get(l) in (None, "char") else counters[l]
+                            counters[l] = "char"
                         else:
-                            bl = b2["place"]["l"]
-                            nm = calls_dest.get(bl, "")
-                            counters[l] = "byte" if nm.endswith("::len_utf8") else "unknown"
+                            counters[l] = "byte" if calls_dest.get(b2["place"]["l"], "").endswith("::len_utf8") else "unknown"
+    for l, k in counters.items():
+        tags[l] = set([k])
+
+    def op_tags(o):
+        if o["k"] == "const":
+            return set(["const"])
+        if o["k"] in ("copy", "move"):
+            return set(tags.get(o["place"]["l"], set()))
+        return set()
+    changed = True
+    while changed:
+        changed = False
+        for s in assigns:
+            l = s["lhs"]["l"]
+            if l in counters:
+                continue
+            new = set()
+            for o in dataflow.operands_of_rvalue(s["rv"]):
+                if o:
+                    new |= op_tags(o)
+            for pl, how in dataflow.places_of_rvalue(s["rv"]):
+                new |= set(tags.get(pl["l"], set()))
+            if s["rv"]["k"] == "binop" and s["rv"]["op"] in ("Eq", "Ne", "Lt", "Le", "Gt", "Ge"):
+                new = set()
+            cur = tags.setdefault(l, set())
+            if not new <= cur:
+                cur |= new
+                changed = True
     names = {}
     for d in body["debug"]:
         if "l" in d["place"] and not d["place"]["p"]:
-            names[d["place"]["l"]] = d["name"]
-    # 2. uses
+            names.setdefault(d["place"]["l"], d["name"])
     uses = []
+    nsub = 0
     for b in body["blocks"]:
         if b["cleanup"]:
             continue
-        # `len - x`
         for s in b["stmts"]:
             if s["k"] == "assign" and s["rv"]["k"] == "binop" and s["rv"]["op"].startswith("Sub"):
                 a, b2 = s["rv"]["a"], s["rv"]["b"]
-                if a["k"] in ("copy", "move") and dim_of_operand(a) == "byte":
-                    d2 = dim_of_operand(b2)
-                    nm = names.get(b2["place"]["l"], "_%d" % b2["place"]["l"]) if b2["k"] != "const" else "const"
-                    uses.append(("sub", b["i"], "`input.len() - %s`" % nm, [d2], s["span"]))
+                if a["k"] in ("copy", "move") and calls_dest.get(a["place"]["l"], "").endswith("str::<impl str>::len") and b2["k"] != "const":
+                    nsub += 1
+                    uses.append(("sub", b["i"], "`input.len() - %s` (#%d)" % (names.get(b2["place"]["l"], "<offset>"), nsub), sorted(op_tags(b2) - {"const"}) or ["const"], s["span"]))
         t = b["term"]
         if t["k"] == "call":
+            nm = calls_dest.get(t["dest"]["l"], "")
             ci = callee_info(t)
             nm = (ci.get("resolved") or ci["def"]) if ci else ""
-            if nm.endswith("Index<I>>::index") or nm == "std::ops::Index::index" or "str::traits::<impl std::ops::Index" in nm:
-                a1 = t["args"][1]
-                if a1["k"] in ("move", "copy"):
-                    ds = defs.get(a1["place"]["l"], [])
-                    for s in ds:
-                        if s["rv"]["k"] == "aggregate" and "Range" in s["rv"].get("adt", ""):
-                            dd = [dim_of_operand(o) for o in s["rv"]["ops"]]
-                            uses.append(("index", b["i"], "`&input[start_pos..end_pos]` (str slice)", dd, t["span"]))
+            if "Index" in nm and nm.endswith("::index") and len(t["args"]) == 2 and t["args"][1]["k"] in ("move", "copy"):
+                rl = t["args"][1]["place"]["l"]
+                tg = sorted(set(tags.get(rl, set())) - {"const"})
+                uses.append(("index", b["i"], "str slice `&input[start..end]`", tg or ["const"], t["span"]))
     return {"uses": uses, "counters": dict((names.get(l, "_%d" % l), v) for l, v in counters.items())}
